@@ -22,6 +22,7 @@ type EnvCase struct {
 	Form1    string            `json:"form1"`
 	Vals1    map[string]*m.Val `json:"vals1"` // run-time environment E1
 	Muts     []string          `json:"muts,omitempty"`
+	Warm     bool              `json:"warm,omitempty"` // an accepted invocation with the sample comes first
 }
 
 func conforms(e0 map[string]*m.Type, e1 map[string]*m.Val) bool {
@@ -123,12 +124,21 @@ func genEnvCase(t *rapid.T) *EnvCase {
 		forms1 = []string{"raw", "struct", "struct", "map", "dyn", "ptr", c.Form0, c.Form0, c.Form0, c.Form0, c.Form0, c.Form0}
 	}
 	c.Form1 = forms1[rapid.IntRange(0, len(forms1)-1).Draw(t, "form1")]
+	c.Warm = rapid.Bool().Draw(t, "warm")
 	if c.Form1 != "raw" {
 		for n, v := range c.Vals1 {
 			c.Vals1[n] = v.Conform(nil) // host data has one field order per position
 		}
 	}
 	return c
+}
+
+// conformForm: the values as host data can express them (one field order per position).
+func conformForm(vals map[string]*m.Val, form string) map[string]*m.Val {
+	if form == "raw" {
+		return vals
+	}
+	return conformAll(vals)
 }
 
 func hasFunVal(v *m.Val) bool {
@@ -211,35 +221,76 @@ func checkC07(c *EnvCase) *Outcome {
 		if c.Form0 != "raw" && c.Form1 != "raw" && reflect.TypeOf(e0) == reflect.TypeOf(e1) {
 			sameGo = true
 		}
-		o := &run.Outcome{Be: be}
-		en.Tr.Reset()
-		o.RunPan = run.Guard(func() { o.Val, o.RunErr = callable(e1) })
-		o.Trace = en.Tr.Snapshot()
 		desc := fmt.Sprintf("E0(%s)=%s | E1(%s)=%s | muts=%v", c.Form0, envSummary(pc), c.Form1, valsSummary(c.Vals1), c.Muts)
-		if !conf {
-			if o.RunPan != nil {
-				return bad("%s: mismatching environment made the Callable panic instead of returning an error: %s\n src: %s\n %s", be, o.RunPan.Text, r.Src, desc)
-			}
-			if o.RunErr == nil {
-				return bad("%s: mismatching environment accepted (result %s)\n src: %s\n %s", be, renderVal(o.Val), r.Src, desc)
-			}
-			if len(o.Trace) > 0 {
-				return bad("%s: something was evaluated before the environment was refused: %s\n src: %s\n %s", be, traceStr(o.Trace), r.Src, desc)
-			}
-			continue
+		// the Callable is invoked several times: optionally first with the compile-time sample
+		// in the run-time physical form (a call that must pass the check), then with E1, with the
+		// very same E1 object again, and with a fresh object of the same contents; every
+		// invocation with E1 is judged alike
+		type step struct {
+			what string
+			env  interface{}
 		}
-		// conforming: accepted and evaluates normally
-		b := &BackendRun{O: o}
-		if !o.Failed() {
-			b.Val, b.Probs = run.FromYaeVal(o.Val, r1.RefType)
+		var steps []step
+		if c.Warm {
+			form := c.Form1
+			if form != "raw" {
+				hostable := run.HostableEnv(c.Env)
+				for _, v := range c.Vals {
+					if hasFunVal(v) {
+						hostable = false
+					}
+				}
+				if !hostable {
+					form = "raw"
+				}
+			}
+			if w, okw := envObject(en, form, conformForm(c.Vals, form), false); okw {
+				steps = append(steps, step{"warm-up with the sample", w})
+			}
 		}
-		r1.Runs = []*BackendRun{b}
-		pc1 := &ProgCase{E: pc.E, Vals: c.Vals1, Env: map[string]*m.Type{}}
-		if err := compareWithRef(pc1, r1); err != nil {
-			return &Outcome{Err: fmt.Errorf("conforming environment (%s): %v", desc, err)}
+		steps = append(steps, step{"first", e1}, step{"same object again", e1})
+		if e1b, okb := envObject(en, c.Form1, c.Vals1, false); okb {
+			steps = append(steps, step{"fresh object, same contents", e1b})
+		}
+		for _, st := range steps {
+			o := &run.Outcome{Be: be}
+			en.Tr.Reset()
+			o.RunPan = run.Guard(func() { o.Val, o.RunErr = callable(st.env) })
+			o.Trace = en.Tr.Snapshot()
+			if st.what == "warm-up with the sample" {
+				if o.RunPan != nil {
+					return bad("%s: invocation with the compile-time sample panicked: %s\n src: %s\n %s", be, o.RunPan.Text, r.Src, desc)
+				}
+				continue
+			}
+			if !conf {
+				if o.RunPan != nil {
+					return bad("%s: mismatching environment (%s) made the Callable panic instead of returning an error: %s\n src: %s\n %s", be, st.what, o.RunPan.Text, r.Src, desc)
+				}
+				if o.RunErr == nil {
+					return bad("%s: mismatching environment accepted (%s; result %s)\n src: %s\n %s", be, st.what, renderVal(o.Val), r.Src, desc)
+				}
+				if len(o.Trace) > 0 {
+					return bad("%s: something was evaluated before the environment was refused (%s): %s\n src: %s\n %s", be, st.what, traceStr(o.Trace), r.Src, desc)
+				}
+				continue
+			}
+			// conforming: accepted and evaluates normally
+			b := &BackendRun{O: o}
+			if !o.Failed() {
+				b.Val, b.Probs = run.FromYaeVal(o.Val, r1.RefType)
+			}
+			r1.Runs = []*BackendRun{b}
+			pc1 := &ProgCase{E: pc.E, Vals: c.Vals1, Env: map[string]*m.Type{}}
+			if err := compareWithRef(pc1, r1); err != nil {
+				return &Outcome{Err: fmt.Errorf("conforming environment (%s; %s): %v", st.what, desc, err)}
+			}
 		}
 	}
 	classes := []string{"form0:" + c.Form0, "form1:" + c.Form1, fmt.Sprintf("conforms:%v", conf)}
+	if c.Warm {
+		classes = append(classes, fmt.Sprintf("accepted-call-first:conforms=%v", conf))
+	}
 	if sameGo {
 		classes = append(classes, fmt.Sprintf("same-go-type:conforms=%v", conf))
 	}
@@ -271,7 +322,7 @@ func valsSummary(vals map[string]*m.Val) string {
 var c07 = Register(&Prop[EnvCase]{ID: "C07", Name: "env-check", Gen: genEnvCase, Check: checkC07})
 
 func TestC07(t *testing.T) {
-	R.Rule = "pairs (compile-time environment E0, run-time environment E1): E0 in one of five physical forms (raw types.Env, Go struct built by reflection with yae tags, map[string]interface{}, Go struct of interface{} fields, Go struct of untagged pointer fields — the last two give one Go type to environments of different yae types), E1 derived from a conforming environment by 0-3 mutations (drop a name, retype a binding at a drawn depth, add extra names, permute object field order at every depth, make a binding optional, other values of the same types) and given in a drawn physical form; programs over E0's names with effect-recording wrappers; oracle: model predicate conforms(E0,E1); conforming => accepted and result = reference evaluator on E1; non-conforming => error returned, no panic, empty effect log; non-trivial = at least one mutation or a change of physical form"
+	R.Rule = "pairs (compile-time environment E0, run-time environment E1): E0 in one of five physical forms (raw types.Env, Go struct built by reflection with yae tags, map[string]interface{}, Go struct of interface{} fields, Go struct of untagged pointer fields — the last two give one Go type to environments of different yae types), E1 derived from a conforming environment by 0-3 mutations (drop a name, retype a binding at a drawn depth, add extra names, permute object field order at every depth, make a binding optional, other values of the same types) and given in a drawn physical form; the Callable is invoked with E1 three times (first, the same object again, a fresh object of the same contents), half of the time after an accepted call with the compile-time sample, and every invocation is judged alike; programs over E0's names with effect-recording wrappers; oracle: model predicate conforms(E0,E1); conforming => accepted and result = reference evaluator on E1; non-conforming => error returned, no panic, empty effect log; non-trivial = at least one mutation or a change of physical form"
 	R.Assume = []string{"model.Equal is structural type equality (fields by name)", "host forms built by run/host.go denote the model values (this is C15's subject)"}
 	reportKnown(t, "C07")
 	runRegress(t, "C07")
